@@ -28,6 +28,14 @@ pub fn scenarios() -> Vec<Scenario> {
 
 pub fn gen(rng: &mut Rng, tier: Tier, idx: u64) -> Case {
     let mut c = hostile_case(rng, tier, idx, "C12", "c12-invariants", 50);
+    // the boundary between two adjacent strings moved into the middle of a code point
+    if !c.packets.is_empty() && rng.chance(1, 5) {
+        let mut a = c.packets[0].clone();
+        if crate::gen::split_codepoint(&mut a) {
+            c.packets[0] = a;
+            c.mutations.clear();
+        }
+    }
     // aim extra corruptions at the fields the invariants talk about
     if !c.packets.is_empty() && rng.chance(2, 3) {
         let e = refcodec::ref_encode(&c.packets[0], c.fam, &c.style);
